@@ -935,6 +935,9 @@ func callBuiltin(caller *frame, callpos token.Pos, fn *ssa.Builtin, args []value
 		return nil
 
 	case "delete": // delete(map[K]value, K)
+		if m := args[0].(*omap); m != nil {
+			caller.i.ps.onWrite(caller, m.cell())
+		}
 		args[0].(*omap).delete(caller.i.ps, args[1])
 		return nil
 
@@ -1055,14 +1058,14 @@ func callBuiltin(caller *frame, callpos token.Pos, fn *ssa.Builtin, args []value
 	panic("unknown built-in: " + fn.Name())
 }
 
-func rangeIter(x value, t types.Type) iter {
+func rangeIter(fr *frame, x value, t types.Type) iter {
 	switch x := x.(type) {
 	case *omap:
 		return &omapIter{m: x, ents: x.snapshot()}
 	case string:
-		return &byteStrIter{b: strBytes(x)}
+		return &byteStrIter{b: strBytes(x), fr: fr}
 	case sstr:
-		return &byteStrIter{b: x.b}
+		return &byteStrIter{b: x.b, fr: fr}
 	}
 	panic(fmt.Sprintf("cannot range over %T", x))
 }
